@@ -66,8 +66,10 @@ func createStructDesc(rv reflect.Value) (*structDesc, error) {
 	}
 	sd, err := newStructDescAndPrefetch(rt)
 	if err != nil {
+		rollbackPrefetch()
 		return nil, err
 	}
+	prefetchedTypes = prefetchedTypes[:0]
 	sds.Set(abiType, sd)
 	if rv.Kind() == reflect.Ptr {
 		sds.Set(rvTypePtr(rv), sd) // *struct and struct share the same structDesc
@@ -76,6 +78,20 @@ func createStructDesc(rv reflect.Value) (*structDesc, error) {
 }
 
 var prefetchStructDescCache = map[reflect.Type]*structDesc{}
+
+// prefetchedTypes lists the tTypes whose Sd was filled in by the build in progress (under sdsmu).
+var prefetchedTypes []*tType
+
+// rollbackPrefetch undoes what a failed build left behind. Descriptors that were
+// completed on the way may refer, through a cycle, to the one that failed, so none
+// of them may stay reachable: not through a cached tType, not through the prefetch cache.
+func rollbackPrefetch() {
+	for _, t := range prefetchedTypes {
+		t.Sd = nil
+	}
+	prefetchedTypes = prefetchedTypes[:0]
+	prefetchStructDescCache = map[reflect.Type]*structDesc{}
+}
 
 func newStructDescAndPrefetch(t reflect.Type) (*structDesc, error) {
 	if sd := prefetchStructDescCache[t]; sd != nil {
@@ -125,6 +141,7 @@ func fetchStructDesc(t *tType) error {
 		return err
 	}
 	t.Sd = sd
+	prefetchedTypes = append(prefetchedTypes, t)
 	return nil
 }
 
